@@ -111,6 +111,47 @@ def sweep_shard(cells, b, p):
     return stats
 
 
+def fuzz_campaign(seed, runs, jobs=16):
+    """thorough tier only: coverage-guided campaign (atheris/libFuzzer) over the same generator and oracles
+    (C01 + C04). Returns (stats, note). Skipped with a note when atheris is not installed under .deps."""
+    import json, os, shutil, subprocess, sys, tempfile
+    deps = os.path.join(core.ROOT, ".deps")
+    stats = core.Stats()
+    if not os.path.isdir(os.path.join(deps, "atheris")):
+        return stats, "atheris not installed under .deps (setup.sh installs it from the local wheelhouse when present): campaign skipped"
+    tmp = tempfile.mkdtemp(prefix="verif-c01-fuzz-")
+    try:
+        procs = []
+        for k in range(jobs):
+            corpus = os.path.join(tmp, "corpus%d" % k)
+            os.makedirs(corpus)
+            out = os.path.join(tmp, "out%d.json" % k)
+            envv = dict(os.environ)
+            envv["PYTHONPATH"] = os.pathsep.join([core.ROOT, os.environ.get("VERIF_REPO", "/repo"), deps])
+            procs.append((out, subprocess.Popen(
+                [sys.executable, "-m", "harness.fuzz_c01", out, "-runs=%d" % runs, "-seed=%d" % (seed * 100 + k + 1),
+                 "-max_len=2048", "-len_control=0", corpus], cwd=core.ROOT, env=envv, stdout=subprocess.DEVNULL, stderr=subprocess.DEVNULL)))
+        execs = 0
+        for out, pr in procs:
+            try:
+                pr.wait(timeout=3600)
+            except subprocess.TimeoutExpired:
+                pr.kill()
+                stats.inconclusive["fuzz-timeout"] += 1
+            if os.path.exists(out):
+                j = json.load(open(out))
+                execs += j["execs"]
+                stats.evaluations += j["execs"]
+                stats.nontrivial.update(j["nontrivial"])
+                for l, n in j["labels"].items():
+                    stats.labels["fuzz:" + l] += n
+                if j.get("violation"):
+                    stats.violations.append(j["violation"])
+        return stats, "atheris campaign: %d processes x %d runs, %d executions" % (jobs, runs, execs)
+    finally:
+        shutil.rmtree(tmp, ignore_errors=True)
+
+
 def replay(case):
     chk = Checker()
     try:
@@ -148,4 +189,8 @@ def run(ctx):
     total.merge_json(core.run_shards("harness.checks.c01", "shard", shards).to_json())
     total.extra["shard_seeds"] = [s["seed"] for s in shards]
     total.extra["cell_sweep"] = {"cells": len(cells), "modes": MODES, "grids": [list(g) for g in grids]}
+    if ctx.tier == "thorough":
+        fz, note = fuzz_campaign(ctx.seed, 20000)
+        total.merge_json(fz.to_json())
+        total.extra["coverage_guided"] = note
     ctx.stats = total
